@@ -750,6 +750,27 @@ def r5_remap_order_and_freshness(ctx, rule_id="R-C07-5"):
             ctx.check(passed, R, site + "|passed", "handed to import_type/import_tuple which memoise into it", "%s is no longer threaded through import_type/import_tuple" % nm)
         elif not ins:
             ctx.violated(R, site + "|insert", "no insert into %s found" % nm)
+        # complete before use: a consultation of the table (`&table` handed to a remapper, or .get) is never followed by a loop that still fills it —
+        # unless both sit in one loop (function_remap: a function refers to functions merged before it). remap_type_id & co. fall back to the
+        # identity for a missing entry, so an early consultation silently keeps the incoming program's ids
+        writes, reads = [], []
+        for bi, t in mb.calls():
+            for a in t["args"]:
+                pl = op_place(a)
+                if not pl:
+                    continue
+                c_ = fl0.canon_op(a) or flm.canon_op(a)
+                if not c_ or c_[0] != l or c_[1]:
+                    continue
+                ty = mb.local_ty(pl["l"]) or ""
+                if ty.startswith("&mut"):
+                    writes.append(bi)
+                elif ty.startswith("&"):
+                    reads.append(bi)
+        early = [(r, w) for r in reads for w in writes if r != w and mb.reaches(r, w) and not mb.reaches(w, r)]
+        ctx.check(not early, R, site + "|complete-before-use", "every consultation of %s comes after the loop that fills it (or inside it)" % nm,
+                  "%s is consulted at %s while a later loop (%s) still fills it: the lookup falls back to the identity and the merged item keeps ids of the "
+                  "incoming program" % (nm, mb.loc(early[0][0]) if early else "?", mb.loc(early[0][1]) if early else "?"), mb.loc(early[0][0]) if early else mb.loc(0))
     # register_function argument is the remap_function result
     for bi, t in mb.calls_to("Program::register_function"):
         a = op_place(t["args"][1])
